@@ -6,7 +6,7 @@
 //! operations {set_scripts all / partial / delete, BlockFilters processing, SendBlock completing
 //! the record, fork rollback through the proof, get_cells, get_transactions, get_cells_capacity}
 //! with at least one writer runs on two real threads under the controlled scheduler: serially
-//! in both orders (reference) and with up to two (thorough: three) preemptions at every hook point
+//! in both orders (reference) and with up to two (thorough: four) preemptions at every hook point
 //! (every storage write, every acquisition of the matched_blocks lock, the reader mid-points).
 //! Oracle: no deadlock, no panic; the final state (whole key space, in-memory matched blocks)
 //! equals the final state of one of the two serial orders; every reader's answer equals its
@@ -408,7 +408,7 @@ fn run_schedule(env: &Env, main: &Chain, fork: &Chain, old: &mut Option<Sim>, pr
 
 pub(crate) fn run(opts: &Opts, report: &mut Report) {
     let thorough = opts.thorough();
-    let depth: usize = std::env::var("C17_DEPTH").ok().and_then(|x| x.parse().ok()).unwrap_or(if thorough { 3 } else { 2 });
+    let depth: usize = std::env::var("C17_DEPTH").ok().and_then(|x| x.parse().ok()).unwrap_or(if thorough { 4 } else { 2 });
     // ordered pairs with at least one writer, not both on the same handler object
     // (pre-state, pair): pre-state 0 = matched-blocks record pending, 1 = fully synced and indexed
     let mut pairs: Vec<(u8, [Op; 2])> = vec![];
@@ -641,7 +641,7 @@ pub(crate) fn run(opts: &Opts, report: &mut Report) {
     report.set("states", json!(report.get("distinct_final_states")));
     report.set("transitions", json!(s));
     report.set("traces_validated_against_impl", json!(s));
-    report.set("rule", json!("one schedule = the two operations of a pair on two real threads over a rebuilt pre-state, exactly one thread runnable between hook points, preempted at the listed hook points; all schedules with <= 2 (thorough 3) alternating preemptions of every pair; overlapped_schedules = schedules in which one operation ran to completion while the other was parked inside its own"));
+    report.set("rule", json!("one schedule = the two operations of a pair on two real threads over a rebuilt pre-state, exactly one thread runnable between hook points, preempted at the listed hook points; all schedules with <= 2 (thorough 4) alternating preemptions of every pair; overlapped_schedules = schedules in which one operation ran to completion while the other was parked inside its own"));
     report.set("bounds", json!({"preemptions": depth, "operations": OPS.iter().map(|o| format!("{:?}", o)).collect::<Vec<_>>(), "pairs": "all unordered pairs with at least one writer, each started by either thread"}));
     report.assume("memory orderings are not explored; a thread that blocks at a primitive without a lock point (any other lock, a DashMap shard, RocksDB) is detected by its OS state and the turn is forced over (counted); two threads blocking each other that way are reported as a deadlock; two pre-states");
     let _: BTreeMap<u8, u8> = BTreeMap::new();
